@@ -33,6 +33,10 @@ type Case struct {
 	Config Config            `json:"config"`
 	Files  map[string]string `json:"files"` // schema files + hand-written Go files (gqlgen.yml is derived)
 	Atoms  []Atom            `json:"atoms,omitempty"`
+	// projects with a cmd/harness program: the request it sends and the response body the GraphQL
+	// semantics prescribe
+	HarnessReq  string `json:"harness_request,omitempty"`
+	HarnessWant string `json:"harness_want,omitempty"`
 }
 
 // Result is what the oracle sees.
@@ -44,13 +48,26 @@ type Result struct {
 	BuildOut  string
 	Resolvers int
 	Collision string // non-empty: two GraphQL types of a naming project are bound to one Go type
+	Step      int    // 1 = generation on the clean tree, 2 = second generation over the first one's output; GenExit..BuildOut belong to the last step run
+	Runtime   string // non-empty: the generated server answered the harness request wrongly (autobind projects)
 	GenS      float64
 	BuildS    float64
 }
 
-func (r Result) OK() bool { return r.GenExit == 0 && r.BuildOK && r.Collision == "" }
+func (r Result) OK() bool {
+	return r.GenExit == 0 && r.BuildOK && r.Collision == "" && r.Runtime == ""
+}
 
+// Stage names the failing step; failures of the second generation carry the prefix "regen:".
 func (r Result) Stage() string {
+	st := r.stage1()
+	if r.Step == 2 && (r.GenExit != 0 || !r.BuildOK) {
+		return "regen:" + st
+	}
+	return st
+}
+
+func (r Result) stage1() string {
 	switch {
 	case r.GenExit == 4:
 		return "generate-panic"
@@ -62,6 +79,8 @@ func (r Result) Stage() string {
 		return "does-not-compile"
 	case r.Collision != "":
 		return "go-type-collision"
+	case r.Runtime != "":
+		return "wrong-runtime-answer"
 	}
 	return "ok"
 }
@@ -80,7 +99,10 @@ func (r Result) ErrKey() string {
 		out = r.BuildOut
 	}
 	if r.GenExit == 0 && r.BuildOK {
-		return r.Collision
+		if r.Collision != "" {
+			return r.Collision
+		}
+		return r.Runtime
 	}
 	first := ""
 	var diags []string
@@ -212,26 +234,49 @@ func runCaseOnce(c *Case, keep bool) Result {
 	for k, v := range c.Files {
 		files[k] = v
 	}
-	res := Result{Case: c}
+	res := Result{Case: c, Step: 1}
 	t0 := time.Now()
 	gr, err := probe.Generate(probe.Spec{Name: name, Files: files, Stub: "graph/stub.go"})
 	if err != nil {
 		common.Broken("cannot run the generator for %s: %v", c.ID, err)
 	}
-	res.GenS = time.Since(t0).Seconds()
-	res.GenExit, res.GenOut = gr.ExitCode, gr.Output
-	if gr.ExitCode != 0 && gr.ExitCode != 3 && gr.ExitCode != 4 {
-		common.Broken("gendriver failed with unexpected exit code %d for %s:\n%s", gr.ExitCode, c.ID, gr.Output)
-	}
-	if gr.ExitCode == 0 {
+	// a 2-step history: generate on the clean tree, build; generate again (fresh process) over
+	// the result, build again. Both generations and both builds must succeed.
+	for {
+		res.GenS += time.Since(t0).Seconds()
+		res.GenExit, res.GenOut = gr.ExitCode, gr.Output
+		if gr.ExitCode != 0 && gr.ExitCode != 3 && gr.ExitCode != 4 {
+			common.Broken("gendriver failed with unexpected exit code %d for %s:\n%s", gr.ExitCode, c.ID, gr.Output)
+		}
+		if gr.ExitCode != 0 {
+			break
+		}
 		t1 := time.Now()
 		out, err := probe.GoBuild(gr.Dir, "./...")
-		res.BuildS = time.Since(t1).Seconds()
+		res.BuildS += time.Since(t1).Seconds()
 		res.BuildOK, res.BuildOut = err == nil, out
+		if !res.BuildOK || res.Step == 2 {
+			break
+		}
+		res.Step = 2
+		t0 = time.Now()
+		dir := gr.Dir
+		gr, err = probe.RunGenerator(dir, dir, "graph/stub.go")
+		if err != nil {
+			common.Broken("cannot run the generator again for %s: %v", c.ID, err)
+		}
+	}
+	if res.GenExit == 0 && res.BuildOK {
 		if b, err := os.ReadFile(filepath.Join(gr.Dir, "graph/stub.go")); err == nil {
 			res.Resolvers = len(reStubField.FindAllIndex(b, -1))
-			if res.BuildOK && c.Kind == "naming" {
+			if c.Kind == "naming" {
 				res.Collision = typeCollision(c.Atoms, string(b))
+			}
+		}
+		if _, ok := c.Files["cmd/harness/main.go"]; ok && res.Collision == "" {
+			var flake string
+			if res.Runtime, flake = runHarness(gr.Dir, c); flake != "" {
+				res.BuildOK, res.BuildOut = false, flake // re-run by runCase
 			}
 		}
 	}
@@ -241,6 +286,33 @@ func runCaseOnce(c *Case, keep bool) Result {
 		fmt.Printf("kept %s in %s\n", c.ID, gr.Dir)
 	}
 	return res
+}
+
+// runHarness builds and runs the project's harness program once and compares the response body
+// with what GraphQL semantics prescribe. Building it is part of `go build ./...` already; a
+// harness that cannot be built or does not answer is broken machinery, not a violation.
+func runHarness(dir string, c *Case) (runtime string, flake string) {
+	id := c.ID
+	bin := filepath.Join(dir, "harness.bin")
+	if out, err := probe.GoBuild(dir, "-o", bin, "./cmd/harness"); err != nil {
+		if envFlake(out) {
+			return "", out
+		}
+		probe.Cleanup()
+		common.Broken("cannot link the harness of %s: %v\n%s", id, err, out)
+	}
+	out, _ := probe.Run(dir, nil, bin, c.HarnessReq)
+	if strings.HasPrefix(out, "HARNESS:") {
+		probe.Cleanup()
+		common.Broken("harness of %s failed:\n%s", id, out)
+	}
+	if strings.TrimSpace(out) == c.HarnessWant {
+		return "", ""
+	}
+	if len(out) > 600 {
+		out = out[:600] + "…"
+	}
+	return "generated server answered " + strings.TrimSpace(out) + " ; arguments are matched by name, expected " + c.HarnessWant, ""
 }
 
 // memo caches results by case id so that minimisation never re-runs a project.
@@ -337,7 +409,11 @@ func featureCase(cfg Config) *Case {
 			files[k] = v
 		}
 	}
-	return &Case{ID: "feature|" + cfg.ID(), Kind: "feature", Schema: "feature", Config: cfg, Files: files}
+	cs := &Case{ID: "feature|" + cfg.ID(), Kind: "feature", Schema: "feature", Config: cfg, Files: files}
+	if cfg.Layout.Models == "autobind" {
+		cs.HarnessReq, cs.HarnessWant = harnessRequest, harnessWant
+	}
+	return cs
 }
 
 func namingCase(p NamingProject, l Layout) *Case {
@@ -348,15 +424,28 @@ func namingCase(p NamingProject, l Layout) *Case {
 
 func smallCase(name string, files map[string]string, l Layout) *Case {
 	cfg := Config{Layout: l}
-	return &Case{ID: "small-" + name + "|" + cfg.ID(), Kind: "small", Schema: "small-" + name, Config: cfg, Files: files}
+	cs := &Case{ID: "small-" + name + "|" + cfg.ID(), Kind: "small", Schema: "small-" + name, Config: cfg, Files: files}
+	if name == "methodorder" {
+		cs.HarnessReq, cs.HarnessWant = methodOrderRequest, methodOrderWant
+	}
+	return cs
+}
+
+// layouts for a small schema: those that bring their own hand-written package need autobind.
+func smallLayouts(files map[string]string) []Layout {
+	if _, ok := files["hand/models.go"]; ok {
+		return []Layout{mainF, mainB, {"single-file", "none", 2, "autobind", "same"}}
+	}
+	return []Layout{mainA, mainC, mainD}
 }
 
 var (
-	mainA = Layout{"single-file", "single-file", 0, "generated"}
-	mainB = Layout{"follow-schema", "follow-schema", 2, "autobind"}
-	mainC = Layout{"follow-schema", "follow-schema", 0, "generated"}
-	mainD = Layout{"single-file", "none", 2, "generated"}
-	mainE = Layout{"follow-schema", "single-file", 2, "generated"}
+	mainA = Layout{"single-file", "single-file", 0, "generated", "separate"}
+	mainB = Layout{"follow-schema", "follow-schema", 2, "autobind", "same"}
+	mainC = Layout{"follow-schema", "follow-schema", 0, "generated", "same"}
+	mainD = Layout{"single-file", "none", 2, "generated", "separate"}
+	mainE = Layout{"follow-schema", "single-file", 2, "generated", "same"}
+	mainF = Layout{"single-file", "single-file", 0, "autobind", "separate"}
 )
 
 // quickCases: the most fault-revealing combinations, one wave on 16 cores.
@@ -368,13 +457,19 @@ func quickCases() []*Case {
 		featureCase(Config{Layout: mainC, Dev: []string{"omit_slice_element_pointers", "struct_fields_always_pointers"}}),
 		featureCase(Config{Layout: mainA, Dev: []string{"resolvers_always_return_pointers", "return_pointers_in_unmarshalinput"}}),
 		featureCase(Config{Layout: mainC, Dev: []string{"use_function_syntax_for_execution_context", "call_argument_directives_with_null"}}),
-		featureCase(Config{Layout: Layout{"single-file", "follow-schema", 2, "generated"}, Dev: []string{"use_function_syntax_for_execution_context", "return_pointers_in_unmarshalinput"}}),
-		featureCase(Config{Layout: Layout{"follow-schema", "single-file", 2, "generated"}, Dev: []string{"nullable_input_omittable", "omit_complexity"}}),
+		featureCase(Config{Layout: Layout{"single-file", "follow-schema", 2, "generated", "same"}, Dev: []string{"use_function_syntax_for_execution_context", "return_pointers_in_unmarshalinput"}}),
+		featureCase(Config{Layout: Layout{"follow-schema", "single-file", 2, "generated", "separate"}, Dev: []string{"nullable_input_omittable", "omit_complexity"}}),
 		featureCase(Config{Layout: mainB, Dev: []string{"omit_slice_element_pointers", "resolvers_always_return_pointers"}}),
 		featureCase(Config{Layout: mainD, Dev: []string{"omit_getters", "omit_root_models"}}),
-		featureCase(Config{Layout: Layout{"single-file", "follow-schema", 2, "generated"}, Dev: []string{"omit_resolver_fields", "omit_panic_handler"}}),
-		featureCase(Config{Layout: Layout{"single-file", "follow-schema", 2, "autobind"}, Dev: []string{"use_function_syntax_for_execution_context", "struct_fields_always_pointers"}}),
-		featureCase(Config{Layout: Layout{"follow-schema", "none", 0, "autobind"}, Dev: []string{"nullable_input_omittable", "return_pointers_in_unmarshalinput"}}),
+		featureCase(Config{Layout: Layout{"single-file", "follow-schema", 2, "generated", "separate"}, Dev: []string{"omit_resolver_fields", "omit_panic_handler"}}),
+		featureCase(Config{Layout: Layout{"single-file", "follow-schema", 2, "autobind", "separate"}, Dev: []string{"use_function_syntax_for_execution_context", "struct_fields_always_pointers"}}),
+		featureCase(Config{Layout: Layout{"follow-schema", "none", 0, "autobind", "same"}, Dev: []string{"nullable_input_omittable", "return_pointers_in_unmarshalinput"}}),
+	)
+	// the cache-lifecycle options on the one-package layouts, and the equal-typed method-order project
+	cs = append(cs,
+		featureCase(Config{Layout: Layout{"single-file", "follow-schema", 0, "generated", "same"}, Dev: []string{"skip_mod_tidy"}}),
+		featureCase(Config{Layout: mainB, Dev: []string{"skip_mod_tidy", "resolver.preserve_resolver"}}),
+		smallCase("methodorder", smallFeatureSchemas()["methodorder"], mainF),
 	)
 	for _, p := range namingProjects(false) {
 		l := mainA
@@ -387,7 +482,7 @@ func quickCases() []*Case {
 }
 
 // thoroughCases: (A) every layout x every option set with <= 1 deviation; (B) every option set
-// with exactly 2 deviations under three main layouts; (C) small feature schemas and all naming
+// with exactly 2 deviations under two main layouts; (C) small feature schemas and all naming
 // projects under the main layouts.
 func thoroughCases() []*Case {
 	var cs []*Case
@@ -408,7 +503,7 @@ func thoroughCases() []*Case {
 	}
 	sort.Strings(names)
 	for _, n := range names {
-		for _, l := range []Layout{mainA, mainC, mainD} {
+		for _, l := range smallLayouts(small[n]) {
 			add(smallCase(n, small[n], l))
 		}
 	}
@@ -422,7 +517,7 @@ func thoroughCases() []*Case {
 			add(featureCase(Config{Layout: l, Dev: d}))
 		}
 	}
-	for _, l := range []Layout{mainA, mainB, mainE} {
+	for _, l := range []Layout{mainA, mainB} {
 		for _, d := range optionSets(l, 2) {
 			add(featureCase(Config{Layout: l, Dev: d}))
 		}
@@ -658,7 +753,7 @@ func evaluate(c *common.Check, cases []*Case, results []*Result, keep bool) {
 	}
 	c.Cov["evaluations"] = evals
 	c.Cov["distinct_nontrivial"] = len(nontrivial)
-	c.Cov["rule"] = "one evaluation = one scratch project: generator of the tree under test run on (schema files, gqlgen.yml, optional hand-written models) + `go build ./...` of everything generated (exec, models, resolver stubs, stubgen file). Projects are enumerated, not sampled: naming patterns x positions packed into projects (failing packed projects are re-run one atom per project), schema-feature projects, and configuration option sets x layouts. distinct_nontrivial = number of distinct (sha256 of schema+hand-written files, sha256 of gqlgen.yml) projects for which generation exited 0, the stubgen file lists >= 1 resolver function, and the build succeeded."
+	c.Cov["rule"] = "one evaluation = one scratch project taken through a 2-step history: generator of the tree under test run on (schema files, gqlgen.yml, optional hand-written models) + `go build ./...` of everything generated (exec, models, resolver stubs, stubgen file), then the generator again (fresh process) over that output + `go build ./...` again; projects with a hand-written model package additionally run the generated server once through a small harness program and compare the response with the one GraphQL prescribes (arguments of method-bound fields matched by name). Projects are enumerated, not sampled: naming patterns x positions packed into projects (failing packed projects are re-run one atom per project), schema-feature projects, and configuration option sets x layouts. distinct_nontrivial = number of distinct (sha256 of schema+hand-written files, sha256 of gqlgen.yml) projects for which generation exited 0, the stubgen file lists >= 1 resolver function, and the build succeeded."
 	c.Cov["planned_projects"] = len(cases)
 	c.Cov["completed_projects"] = completed
 	c.Cov["exhaustive"] = completed == len(cases)
@@ -744,7 +839,7 @@ func minimise(c *common.Check, r *Result, keep bool) Config {
 	// 2. layout dimensions
 	var cands []Config
 	var dims []int
-	for dim := 0; dim < 4; dim++ {
+	for dim := 0; dim < layoutDims; dim++ {
 		l, changed := cur.Layout.ResetDim(dim)
 		ok := changed
 		for _, d := range cur.Dev {
@@ -818,8 +913,8 @@ func bounds(tier string, cases []*Case) map[string]any {
 		"distinct_schemas":  len(schemas),
 		"distinct_configs":  len(cfgs),
 		"max_deviations":    2,
-		"thorough_product":  "all 24 layouts x (<=1 deviation) + 3 main layouts x (exactly 2 deviations) + small feature schemas x 3 layouts + naming projects x 2 layouts",
-		"quick_selection":   "12 feature-schema configurations (each with 0 or 2 deviations, all exec/resolver layouts, both worker limits, both model modes) + packed naming projects",
+		"thorough_product":  "all 48 layouts (exec x resolver x worker_limit x models x model package) x (<=1 deviation) + 2 main layouts x (exactly 2 deviations) + small feature schemas x 3 layouts + naming projects x 2 layouts",
+		"quick_selection":   "14 feature-schema configurations (0 to 2 deviations; every value of every layout dimension incl. models in the exec package) + the equal-typed method-order project + packed naming projects",
 		"feature_schema":    "4 files: objects, interfaces incl. interface-implements-interface, unions, enums, inputs (recursive, @oneOf), nested list/non-null wrappers, defaults of every kind, custom directives on all 19 locations, built-in directives, subscription, extend type/enum/union/input across files, descriptions with quotes/backticks/comment terminators",
 	}
 }
@@ -827,6 +922,7 @@ func bounds(tier string, cases []*Case) map[string]any {
 var assumptions = []string{
 	"only valid schemas inside gqlgen's documented feature set are generated; colliding field / argument / input-field names inside one scope are outside the statement (gqlgen's documented answer is @goField(name:), covered by the gofieldrename schema) and are not enumerated",
 	"type-checking is `go build ./...` with the pinned Go 1.23.8 toolchain against the runtime packages of the tree under test (replace directive); go vet is not run",
+	"the runtime harness only exercises fields bound to hand-written model methods (Calc) through one fixed request; everything else about execution semantics belongs to C01/C02",
 	"the gendriver (cmd/gendriver) calls api.Generate exactly like `gqlgen generate` plus the stubgen plugin; exit 3 = error, 4 = panic",
 	"federation is not part of this property's configuration space (C20 covers the federation plugin)",
 	"colliding-pair obligations are enumerated for type names and enum values only (the two scopes for which gqlgen documents a collision registry, docs/content/reference/name-collision.md); for type names the oracle additionally requires the two GraphQL types to be bound to different Go types",
